@@ -20,12 +20,14 @@ class Livelock(Exception):
 
 
 class VTM(TaskManager):
+    """the library's TaskManager, unchanged: the virtual clock lives in VT (not in an attribute of this object, where a
+    change to the library could read or overwrite it by accident) and reaches the library through bacpypes.task._time"""
+
     def __init__(self):
         TaskManager.__init__(self)
-        self.now = 0.0
 
-    def get_time(self):
-        return self.now
+    # (get_time is NOT overridden: TaskManager.get_time reads bacpypes.task._time, which VT points at this clock -- the
+    # library's own way of asking for the time stays under test)
 
 
 class VT:
@@ -33,8 +35,9 @@ class VT:
         existing = TaskManager._singleton_instance if hasattr(TaskManager, "_singleton_instance") else None
         if existing is not None and not isinstance(existing, VTM):
             raise RuntimeError("a real TaskManager already exists")
+        self._now = 0.0
+        task._time = lambda: self._now
         self.tm = existing or VTM()
-        task._time = lambda: self.tm.now
         core.taskManager = self.tm
         # the trigger pipe is irrelevant without asyncore; keep it but never block on it
         self.steps = 0
@@ -55,29 +58,29 @@ class VT:
 
     @property
     def now(self):
-        return self.tm.now
+        return self._now
 
     @now.setter
     def now(self, v):
-        self.tm.now = v
+        self._now = v
 
     def reset(self, now=0.0):
         for e in self.tm.tasks:
             e[2].isScheduled = False
         self.tm.tasks = []
-        self.tm.now = now
+        self._now = now
         core.deferredFns = []
         self.steps = 0
         self.errors = []
 
     def due(self):
-        return sorted(e for e in self.tm.tasks if e[0] <= self.tm.now)
+        return sorted(e for e in self.tm.tasks if e[0] <= self._now)
 
     def next_deadline(self):
         return self.tm.tasks[0][0] if self.tm.tasks else None
 
     def pending(self):
-        return bool(core.deferredFns) or bool(self.tm.tasks and self.tm.tasks[0][0] <= self.tm.now)
+        return bool(core.deferredFns) or bool(self.tm.tasks and self.tm.tasks[0][0] <= self._now)
 
     def step_all(self, limit=100000):
         """run everything due at the current instant with the library's own loop"""
@@ -85,7 +88,7 @@ class VT:
         while True:
             n += 1
             if n > limit:
-                raise Livelock("more than %d run_once passes at t=%r" % (limit, self.tm.now))
+                raise Livelock("more than %d run_once passes at t=%r" % (limit, self._now))
             core.run_once()
             self.steps += 1
             if not self.pending():
@@ -100,9 +103,9 @@ class VT:
                 core.run_once()
                 return None
             entry = due[0]
-        lifted = [e for e in self.tm.tasks if e is not entry and e[0] <= self.tm.now]
+        lifted = [e for e in self.tm.tasks if e is not entry and e[0] <= self._now]
         if lifted:
-            self.tm.tasks = [e for e in self.tm.tasks if e[0] > self.tm.now or e is entry]
+            self.tm.tasks = [e for e in self.tm.tasks if e[0] > self._now or e is entry]
             heapq.heapify(self.tm.tasks)
         try:
             self._run_once_single()
@@ -142,11 +145,11 @@ class VT:
             nd = self.next_deadline()
             if nd is None or nd > t:
                 break
-            self.tm.now = max(self.tm.now, nd)
+            self._now = max(self._now, nd)
             n += 1
             if n > limit:
-                raise Livelock("more than %d instants before t=%r (now %r)" % (limit, t, self.tm.now))
-        self.tm.now = max(self.tm.now, t)
+                raise Livelock("more than %d instants before t=%r (now %r)" % (limit, t, self._now))
+        self._now = max(self._now, t)
 
     def run_quiescent(self, horizon, limit=200000):
         """run until no task is left or the horizon is reached; returns True if quiescent"""
@@ -158,10 +161,10 @@ class VT:
                 return True
             if nd > horizon:
                 return False
-            self.tm.now = max(self.tm.now, nd)
+            self._now = max(self._now, nd)
             n += 1
             if n > limit:
-                raise Livelock("more than %d instants (now %r)" % (limit, self.tm.now))
+                raise Livelock("more than %d instants (now %r)" % (limit, self._now))
 
 
 _vt = None
